@@ -3,6 +3,7 @@ verification conditions.  See DESIGN 2.2.  One Engine instance verifies one func
 from __future__ import annotations
 
 import ast
+import re
 
 from . import smt
 from .smt import And, Or, Not, Implies, Ite, Eq, IntVal, StrVal, BoolVal, Len, Add, Sub, Lt, Le, Ge, Gt, TRUE, FALSE, Term
@@ -128,7 +129,10 @@ class Engine:
         loops = self.func.loops()
         for k, spec in self.c.loops.items():
             if k >= len(loops):
-                raise SourceError(f"{self.c.qualname}: loop #{k} no longer exists")
+                # the loop is gone: its invariants bind to nothing; the function is verified without them (a missing
+                # invariant can only make obligations fail, never prove them)
+                self.rebound.append(f"loop #{k} ('{spec.fingerprint}') no longer exists; its invariants were dropped")
+                continue
             fp = loop_fingerprint(loops[k])
             if fp != spec.fingerprint:
                 # the header changed: keep the invariant bound by ordinal and let the obligations decide
@@ -321,6 +325,10 @@ class Engine:
         res = vals[-1]
         for v, c in zip(reversed(vals[:-1]), reversed(conds[:-1])):
             res = self.merge_vals(c if not is_and else Not(c), v, res)
+        if isinstance(res, V) and isinstance(res.ty, TJson):
+            # operands of different types were merged into a JSON value: keep what Python guarantees about it,
+            # bool(a and b) == bool(a) and bool(b), bool(a or b) == bool(a) or bool(b)
+            st.assume(Eq(truthy(self, res), And(*conds) if is_and else Or(*conds)))
         return res
 
     def merge_vals(self, cond: Term, a: Val, b: Val) -> Val:
@@ -405,9 +413,11 @@ class Engine:
         if len(node.generators) != 1 or node.generators[0].ifs:
             return self._opaque_comp(node, st, spec)
         gen = node.generators[0]
-        view = iter_view(self, st, self.eval(gen.iter, st, spec), self.origin(gen.iter))
+        it_val = self.eval(gen.iter, st, spec)
+        view = iter_view(self, st, it_val, self.origin(gen.iter))
         if view.concrete is None:
-            return self._opaque_comp(node, st, spec)
+            m = self._map_comp(node, gen, it_val, st) if isinstance(node, (ast.ListComp, ast.GeneratorExp)) else None
+            return m if m is not None else self._opaque_comp(node, st, spec)
         saved = dict(st.env)
         out = []
         for i in range(view.concrete):
@@ -415,6 +425,32 @@ class Engine:
             out.append(build(st))
         st.env = saved
         return out
+
+    def _map_comp(self, node, gen, S, st):
+        """[f(x) for x in S] over a symbolic sequence, f mentioning only x: `map_<f>(S)`, an uninterpreted function of S
+        with len(map(S)) == len(S).  Specifications name the same function (spec helper `map_term`)."""
+        if not (isinstance(S, V) and isinstance(S.ty, TSeq) and isinstance(gen.target, ast.Name)):
+            return None
+        free = {n.id for n in ast.walk(node.elt) if isinstance(n, ast.Name)}
+        if free - {gen.target.id}:
+            return None
+        return self.map_term(ast.unparse(node.elt), gen.target.id, S, st)
+
+    def map_term(self, elt_src: str, var: str, S, st):
+        d = self.decls
+        x = smt.BoundVar("q_mapelt", sort_of(S.ty.elem, d))
+        saved = dict(st.env)
+        st.env[var] = wrap(self, S.ty.elem, x)
+        try:
+            v = self.eval(ast.parse(elt_src, mode="eval").body, st, True)
+        finally:
+            st.env = saved
+        if not isinstance(v, V):
+            return None
+        f = d.fun("map_" + smt.mangle(re.sub(r"\b%s\b" % re.escape(var), "_", elt_src)), [S.t.sort], smt.SeqS(v.t.sort))
+        res = f(S.t)
+        st.assume(Eq(Len(res), Len(S.t)))
+        return V(TSeq(v.ty), res)
 
     def _opaque_comp(self, node, st, spec):
         """A comprehension the property does not depend on: an unconstrained JSON-like value."""
